@@ -27,7 +27,8 @@ Checks(r) ==
    <<"RequestPaths", \A k \in 1..Len(r.reqs) : r.reqs[k].path = r.wantpath>>,
    <<"FilterParameterKept", \A k \in 1..Len(r.reqs) : r.reqs[k].filter = c.filter>>}
 
-Conforms(r) == LET m == Run(r.c) IN
+\* (records of the referrers tag schema - one client-filtered index - carry no page-by-page model run)
+Conforms(r) == ("tagschema" \in DOMAIN r /\ r.tagschema) \/ LET m == Run(r.c) IN
   /\ r.pages = m.pages
   /\ [k \in 1..Len(r.reqs) |-> r.reqs[k].after] = m.reqs
   /\ r.outcome = m.outcome
